@@ -138,6 +138,15 @@ cfg_not_miri! {
                     (event.event, event.time)
                 }
 
+                /// The timestamp of the event `fetch_next` would return.
+                pub(crate) fn peek_time(&self) -> Option<SimTime> {
+                    if let Some(event) = self.zero_queue.front() {
+                        Some(event.time)
+                    } else {
+                        self.heap.peek().map(|event| event.time)
+                    }
+                }
+
                 #[allow(clippy::needless_pass_by_value)]
                 pub(crate) fn add(
                     &mut self,
@@ -202,6 +211,11 @@ cfg_not_miri! {
                     Self {
                         inner: CQueue::new(options.cqueue_num_buckets, options.cqueue_bucket_timespan),
                     }
+                }
+
+                /// The timestamp of the event `fetch_next` would return.
+                pub(crate) fn peek_time(&self) -> Option<SimTime> {
+                    self.inner.peek_time().map(SimTime::from_duration)
                 }
 
                 #[allow(clippy::needless_pass_by_value)]
@@ -365,6 +379,15 @@ cfg_miri! {
                 };
 
                 (event.event, event.time)
+            }
+
+            /// The timestamp of the event `fetch_next` would return.
+            pub(crate) fn peek_time(&self) -> Option<SimTime> {
+                if let Some(event) = self.zero_queue.front() {
+                    Some(event.time)
+                } else {
+                    self.heap.peek().map(|event| event.time)
+                }
             }
 
             #[allow(clippy::needless_pass_by_value)]
